@@ -25,4 +25,8 @@ IsFailureX(conds, r, e) ==
 \* abort / cancel conditions as the code evaluates them (a result registration ignores the error)
 AbortsCode(conds, r, e) == \E c \in conds : MatchesX(c, r, e) \/ (c.t = "result" /\ r = c.v)
 
+\* bursty rate limiter used sequentially without waiting: m permits per period of `per` units (0: one endless period),
+\* periods counted from the limiter's creation at time 0; state = [per: current period, left: permits left in it]
+RlRoll(p, st, now) == LET pi == IF p.per = 0 THEN 0 ELSE now \div p.per IN
+                      IF pi > st.per THEN [per |-> pi, left |-> p.m] ELSE st
 =============================================================================
